@@ -313,3 +313,46 @@ def inline_guard(text, var, expr, lock_call, unlock_call):
     tail, k = re.subn(r"(?<![\w.])%s\b" % re.escape(var), expr, tail)
     n += k
     return head + lock_call + tail, n
+
+
+def abstract_async_block(text, var, replacement):
+    """R8: `let VAR = async move { … };` -> `let VAR = REPLACEMENT;` (async blocks are outside Verus;
+    the block's captured values are passed to an abstract constructor named in the template)."""
+    m = re.search(r"let %s = async move \{" % re.escape(var), text)
+    if not m:
+        return text, 0
+    o = m.end() - 1
+    c = match_brace(text, o)
+    # consume the trailing `;`
+    e = c + 1
+    while e < len(text) and text[e] in " \t":
+        e += 1
+    if e < len(text) and text[e] == ";":
+        e += 1
+    return text[:m.start()] + "let %s = %s;" % (var, replacement) + text[e:], 1
+
+
+def mut_self_param(text):
+    """R14: `fn f(mut self, …) { B }` -> `fn f(self, …) { let mut self_ = self; B[self := self_] }`
+    (Verus: "mut self" unsupported). Standard desugaring of a `mut` binding of a by-value parameter."""
+    sp = _sig_span(text)
+    if not sp:
+        return text, 0
+    k, j, toks = sp
+    m = None
+    for i in range(k, j - 1):
+        if toks[i].text == "mut" and toks[i + 1].text == "self":
+            m = i
+            break
+    if m is None:
+        return text, 0
+    edits = [(toks[m].pos, toks[m + 1].pos, "")]
+    body_open = toks[j].pos
+    edits.append((body_open + 1, body_open + 1, "\n        let mut self_ = self;"))
+    for t in toks[j + 1:]:
+        if t.text == "self":
+            edits.append((t.pos, t.pos + 4, "self_"))
+    new = text
+    for a, b, r in sorted(edits, reverse=True):
+        new = new[:a] + r + new[b:]
+    return new, len(edits)
